@@ -28,6 +28,38 @@ def _innermost(tb):
     return '%s.%s' % (os.path.splitext(os.path.basename(f.filename))[0], f.name)
 
 
+def _phase_of(err):
+    """pipeline phase in which an error was produced: the frame called directly by Pipeline.run_pipeline's run()"""
+    frames = []
+    f = sys._getframe(2)
+    while f is not None:
+        frames.append(f)
+        if f.f_code.co_name == 'run_pipeline':
+            break
+        f = f.f_back
+    else:
+        frames = []
+    cand = None
+    if frames and len(frames) >= 3:
+        # frames[-1] = run_pipeline, [-2] = run, [-3] = the phase
+        cand = frames[-3]
+    if cand is None or frames[-2].f_code.co_name != 'run':
+        # error object raised and reported by run_pipeline itself: use its traceback
+        tb = getattr(err, '__traceback__', None)
+        chain = []
+        while tb is not None:
+            chain.append(tb.tb_frame)
+            tb = tb.tb_next
+        names = [fr.f_code.co_name for fr in chain]
+        if 'run' in names and names.index('run') + 1 < len(chain):
+            cand = chain[names.index('run') + 1]
+        else:
+            return None
+    if cand.f_code.co_name == '__call__' and 'self' in cand.f_locals:
+        return type(cand.f_locals['self']).__name__
+    return cand.f_code.co_name
+
+
 def install(args):
     args = args or {}
     _state['budget'] = float(args.get('cpu_budget_s') or 120)
@@ -42,6 +74,10 @@ def install(args):
             try:
                 pos = getattr(err, 'position', None)
                 rec = {'cls': type(err).__name__, 'msg': str(getattr(err, 'message_only', err))[:600], 'pos': None}
+                try:
+                    rec['phase'] = _phase_of(err)
+                except Exception:
+                    rec['phase'] = None
                 if pos:
                     try:
                         nlines = len(pos[0].get_lines())
